@@ -105,7 +105,7 @@ def run_cmd(argv, timeout, mem_gb=8, cwd=None, log=None, env=None):
 
 _RE_PROP = re.compile(r'^\[(\S+)\] (.*?): (SUCCESS|FAILURE|UNKNOWN|ERROR)\s*$', re.M)
 _RE_VARS = re.compile(r'(\d+) variables, (\d+) clauses')
-_RE_RT = re.compile(r'Runtime decision procedure: ([\d.]+)s|Runtime Solver: ([\d.]+)s')
+_RE_RT = re.compile(r'Runtime decision procedure: ([\d.]+)s|Runtime Solver: (?:[\d.]+)s')
 
 
 def parse_cbmc(out, res):
@@ -115,9 +115,9 @@ def parse_cbmc(out, res):
     m = _RE_VARS.findall(out)
     if m:
         res.vars, res.clauses = int(m[-1][0]), int(m[-1][1])
-    for a, b in _RE_RT.findall(out):
+    for a in _RE_RT.findall(out):
         try:
-            res.solver_s += float(a or b)
+            res.solver_s += float(a) if a else 0.0
         except ValueError:
             pass
     if 'VERIFICATION SUCCESSFUL' in out:
@@ -265,8 +265,8 @@ def drive(pid, mod, tier, seed=0, only=None):
             continue
         if r.status == 'failed':
             for n, d in r.failed:
-                if re.search(r'unwinding assertion', d):
-                    inconclusive.append(r)   # bound too small: not a verdict either way
+                if re.search(r'unwinding assertion|(^|\d )encoding: ', d):
+                    inconclusive.append(r)   # bound too small / encoding incomplete: not a verdict either way
                     continue
                 k = match_known(pid, j.name, d, known)
                 (knowns if k else violations).append((r, n, d, k))
